@@ -174,7 +174,12 @@ func (l *FakeLink) Close() error {
 		if live {
 			bu, _, _ := transport_controller.VerifC06Tables(s.ctrl)
 			s.mu.Lock()
-			if bu[l.Spec.UUID] != link.Link(l) {
+			// Reading the tables takes the controller's lock: under the controlled
+			// scheduler the transport thread may report this very link's loss in
+			// between (the model is updated first, then the controller drops the
+			// link - legitimately). Only a link that is STILL live in the model
+			// when the tables were read was removed without a loss report.
+			if s.state[l.Spec.Name] == stLive && bu[l.Spec.UUID] != link.Link(l) {
 				s.droppedLive = append(s.droppedLive, l.Spec.Name)
 			}
 			if report {
